@@ -136,7 +136,7 @@ func (prog *Program) VerifyFunc(ct *Contract, opts Options) (res *UnitResult) {
 		// frame: everything outside the modifies clause is unchanged
 		if !ct.ModAll && !ct.ModStatic {
 			for _, k := range x.heap.order {
-				if k == allocKey || strings.HasPrefix(k, "X:iter") || strings.HasPrefix(k, "X:defer:") {
+				if k == allocKey || strings.HasPrefix(k, "X:iter") || strings.HasPrefix(k, "X:defer:") || strings.HasPrefix(k, "X:ctx:") {
 					continue
 				}
 				cur, ok := f.st.heap[k]
